@@ -59,6 +59,8 @@ def ns_token(bindings) -> str:
 def observe(cls: str, data):
     """The iteration order rdflib will use, rendered as the request's data token, plus namespaces."""
     is_graph = isinstance(data, Graph)
+    if isinstance(data, Dataset):
+        list(data.graphs())  # the first call registers the default graph in the store and changes the order of later calls
     ns = list(data.namespaces()) if is_graph else []
     if cls == "T":
         if isinstance(data, Dataset):
